@@ -263,9 +263,13 @@ def _history(w, h, res, dry, out):
     if w.stalled is not None:
         res.obs['histories_stalled(C05 owns)'] += 1
         return
-    if took is None:
+    if took is None and w.pending_timers():
         res.obs['histories_not_quiescent(C05 owns)'] += 1
         return
+    if took is None:
+        # nothing is scheduled any more, yet the exclusive slot is taken: no request is in flight in any sense the
+        # statement could mean, so the watchers are judged (C10 owns the leaked slot itself)
+        res.obs['histories_with_the_slot_taken_while_nothing_runs(judged)'] += 1
     yield w.advance(0.05)        # SIGKILLed processes finish dying
     judged = 0
     converged = []
@@ -288,7 +292,7 @@ def _history(w, h, res, dry, out):
             yield w.advance(1.0)      # periodic checks are check_delay apart
             yield w.check()
             t2 = yield w.settle(180.0)
-            if w.stalled is not None or t2 is None:
+            if w.stalled is not None or (t2 is None and w.pending_timers()):
                 res.obs['histories_stalled(C05 owns)'] += 1
                 return
         if need is None and simhist.reported_status(w, name) != 'active':
